@@ -115,7 +115,7 @@ func (c *Child) Do(cmd map[string]any) (*Result, error) {
 			return nil, err
 		}
 		return &res, nil
-	case <-time.After(30 * time.Second):
+	case <-time.After(180 * time.Second): // the child may be waiting for a free loopback port (netx.Calm, up to 75 s)
 		c.cmd.Process.Kill()
 		return nil, fmt.Errorf("child timeout")
 	}
